@@ -313,6 +313,13 @@ func (b *EndpointBuilder) WriteHash(h hash.Hash) {
 		h.WriteString(string(b.service.Hostname))
 		h.Write(Slash)
 		h.WriteString(b.service.Attributes.Namespace)
+		// b.service is this proxy's (sidecar scope) view of the service, which may carry only some of the
+		// service's ports; a view without the port yields an empty assignment that must not be shared with
+		// proxies whose view has it.
+		if _, found := b.service.Ports.GetByPort(b.port); !found {
+			h.Write(Slash)
+			h.WriteString("noport")
+		}
 	}
 	h.Write(Separator)
 
